@@ -88,10 +88,10 @@ func genC06(t *rapid.T) c06Case {
 	if rapid.IntRange(0, 2).Draw(t, "survivor") == 0 {
 		cc.Survivor = true
 		early := rapid.Bool().Draw(t, "survivorOpensEarly")
-		w := OpWeights{KAdd: 4, KRead: 2, KCompactAll: 2, KClean: 1, KOpen: 1}
+		w := OpWeights{KAdd: 4, KRead: 2, KCompactAll: 2, KExpire: 2, KAutoCompact: 1, KCompactRange: 1, KClean: 1, KOpen: 1}
 		if early {
 			// what a handle with an outdated view may do to the directory
-			w = OpWeights{KClean: 3, KClose: 1, KCompactAll: 2, KAutoCompact: 1, KAdd: 2, KRead: 2}
+			w = OpWeights{KClean: 3, KClose: 1, KCompactAll: 2, KExpire: 1, KAutoCompact: 1, KCompactRange: 1, KAdd: 2, KRead: 2}
 		}
 		sp := drawProgs(t, 1, 3, []OpWeights{w}, hs, c.Cfg.Exact)[0]
 		for i := range sp.Ops {
